@@ -98,12 +98,12 @@ impl<'a> M<'a> {
             loop {
                 let cur = self.best.feeds[fi].clone();
                 match cur {
-                    Feed::Gen { seed, shape, len, scale, positive } => {
+                    Feed::Gen { seed, shape, len, scale, positive, quant } => {
                         let mut done = true;
                         for nl in [len / 2, len * 3 / 4, len - len / 8] {
                             if nl < len && nl > 0 {
                                 let mut c = self.best.clone();
-                                c.feeds[fi] = Feed::Gen { seed, shape, len: nl, scale, positive };
+                                c.feeds[fi] = Feed::Gen { seed, shape, len: nl, scale, positive, quant };
                                 if self.attempt(c) {
                                     progress = true;
                                     done = false;
